@@ -22,6 +22,8 @@ RULE = ('histories (8–45 ops) over 1–3 real streams (single- and multi-phase
         'imol/imass/ivol.get_data/set_data(units), get_property/set_property(F_*, units) and indexer constructors with units= '
         '(unit strings drawn from all flow units, so mostly of another dimension than the view; each case starts from cold '
         'unit memos and many first convert legitimately to the same units string), '
+        'Stream / MultiStream constructors with units= (all eight) and total_flow=, Stream.copy() / copy(thermo=), '
+        'view reductions (.sum/.max/.any), index-less get_data / set_data, Material indexer constructors with units=, '
         'reset_flow (single and multi-phase; every unit dimension or none; with / without phase(s) change and total_flow), '
         'whole-view assignment (s.mass = o.mass, s.vol = o.vol, ivol.data.copy_like(o.vol), imass[phase] = row / ndarray) '
         'between streams of different T / P / phase, get/set_total_flow in kmol/hr, mol/s, kg/hr, lb/hr, g/min, m3/hr, L/min, gal/min (+ non-flow units), '
@@ -261,6 +263,7 @@ def run_ops(ops):
     w = World()
     model_in, outs, failures, tags = [], [], [], set()
     pending = [None]
+    ran = []
     hist = {'viewread': 0, 'change_after_read': 0, 'read_after_change': 0}
 
     def emit(line, ans):
@@ -394,7 +397,8 @@ def run_ops(ops):
     def do(line):
         t = line.split(' ')
         op = t[0]
-        tags.add(op)
+        n_before = len(model_in)
+        ran.append((op, n_before))
         if op in RESTRUCTURING and w.streams and locked(w.streams[S(t[1])]):
             return      # the indexer of a phase view: only its parent re-attaches it (model: Precondition)
         if op == 'view':
@@ -686,6 +690,50 @@ def run_ops(ops):
             else:
                 emit(ml, err or f'w {vt}')
                 w.last_set = ('flow', sid, ph, i, u, x) if err is None and udim == dim else None
+        elif op in ('getdataall', 'setdataall'):
+            # imol/imass/ivol .get_data(units) / .set_data(array, units) without an index
+            sid = S(t[1]); s = w.streams[sid]; dim = t[2]; u = t[3]
+            udim = UNIT_DIM[u]
+            before = mol_rows(s)
+            ix = indexer(s, dim)
+            if udim != dim:
+                try:
+                    (ix.get_data(u) if op == 'getdataall' else ix.set_data(np.ones(len(s.chemicals.IDs)), u)); err = None
+                except DIM_ERRORS:
+                    err = 'err DimensionError'
+                view_guard(sid, s, f'i{dim}.{"get" if op == "getdataall" else "set"}_data (no index)', dim, u, err, before, None)
+                emit(f'unitfor {dim} {u}', err or 'accepted')
+                return
+            f = UNIT_FACTOR[u]
+            V = vtok(s, dim == 'vol')
+            if op == 'getdataall':
+                ml = {'mol': f'rdmol {sid}', 'mass': f'rdmass {sid}', 'vol': f'rdvol {sid} {V}'}[dim]
+                pend(sid, dim, ml)
+                val = ix.get_data(u)
+                rows = dense_rows(val)
+                vt = '-' if dim == 'mol' else w.vnum(indexer(s, dim))
+                emit(ml, f'm {vt} {mat([[x / f for x in r] for r in rows], fbits)}')
+                mol = mol_rows(s)
+                fac = ([[float(m) for m in s.chemicals.MW]] * len(mol) if dim == 'mass' else fresh_V(s) if dim == 'vol'
+                       else [[1.0] * len(mol[0])] * len(mol))
+                exp = [[m * a * f for m, a in zip(r, fr)] for r, fr in zip(mol, fac)]
+                if not rows_close(rows, exp):
+                    fail(f'get_data(all):{dim}', f'stream {sid}: i{dim}.get_data({u!r}) = {rows}, expected {exp}')
+                if dim != 'mol': note_view_read()
+            else:
+                if is_multi(s): return
+                xs = [float(x) for x in t[4].split(',')]; n = len(s.chemicals.IDs); xs = (xs * n)[:n]
+                base = [x / f for x in xs]
+                ml = f'putrow {sid} {dim} - {mat([base])} {V}'
+                pend(sid, dim, ml)
+                ix.set_data(np.array(xs), u)
+                vt = '-' if dim == 'mol' else w.vnum(indexer(s, dim))
+                emit(ml, f'w {vt}')
+                w.last_set = None
+                mark_change(sid, 'set_data')
+                back = [float(v) for v in np.asarray(dense_rows(indexer(s, dim).get_data(u))[0])]
+                if not rows_close([back], [xs]):
+                    fail(f'roundtrip:set_data(all):{dim}', f'stream {sid}: i{dim}.set_data({xs}, {u!r}) reads back {back}')
         elif op in ('getprop', 'setprop'):
             # get_property('F_<dim>', units) / set_property('F_<dim>', x, units)
             sid = S(t[1]); s = w.streams[sid]; dim = t[2]; u = t[3]
@@ -716,20 +764,103 @@ def run_ops(ops):
                 if err is None and udim == dim:
                     check_total_set(sid, s, dim, x, UNIT_FACTOR[u], z0, F0, f'set_property(F_{dim}, {u!r})')
         elif op == 'ctor':
-            # Chemical{Molar,Mass,Volumetric}FlowIndexer(phase, units=u, chemicals, Water=1): data = 1 / factor
+            # {Chemical,}{Molar,Mass,Volumetric}FlowIndexer(…, units=u, …=1): data = 1 / factor
             dim, u = t[1], t[2]
-            cls = {'mol': tmo.indexer.ChemicalMolarFlowIndexer, 'mass': tmo.indexer.ChemicalMassFlowIndexer,
-                   'vol': tmo.indexer.ChemicalVolumetricFlowIndexer}[dim]
+            material = len(t) > 3 and t[3] == 'm'
             chems = THERMOS[0].chemicals
+            if material:
+                cls = {'mol': tmo.indexer.MolarFlowIndexer, 'mass': tmo.indexer.MassFlowIndexer,
+                       'vol': tmo.indexer.VolumetricFlowIndexer}[dim]
+                build = lambda: cls(units=u, chemicals=chems, l=[(chems.IDs[0], 1.)], g=[(chems.IDs[1], 1.)])
+                first = lambda ix: float(np.asarray(ix.data.to_array())[ix._phase_indexer('l'), 0])
+            else:
+                cls = {'mol': tmo.indexer.ChemicalMolarFlowIndexer, 'mass': tmo.indexer.ChemicalMassFlowIndexer,
+                       'vol': tmo.indexer.ChemicalVolumetricFlowIndexer}[dim]
+                build = lambda: cls(phase='l', units=u, chemicals=chems, **{chems.IDs[0]: 1.})
+                first = lambda ix: float(ix.data[0])
             try:
-                ix = cls(phase='l', units=u, chemicals=chems, **{chems.IDs[0]: 1.})
-                val = float(ix.data[0]); err = None
+                val = first(build()); err = None
             except DIM_ERRORS:
                 err = 'err DimensionError'
+            except TypeError as e:
+                # fixes_proposed/C11-8: MaterialIndexer.__new__ passes the last phase's value tuple to set_data
+                emit(f'unitfor {dim} {u}', 'raised TypeError')
+                fail('material-indexer-ctor-units:TypeError', f'{cls.__name__}(l=[…], g=[…], units={u!r}) raised TypeError: {e}')
+                return
             if UNIT_DIM[u] != dim and err is None:
                 fail('dimension_guard:view-units', f'{cls.__name__}(units={u!r}) was accepted although {u!r} is not a '
                      f'{dim} flow unit (data {val!r})')
             emit(f'unitfor {dim} {u}', err or f'x - {fbits(1. / val)}')
+        elif op in ('newu1', 'newum'):
+            # Stream(…, units=u, total_flow=…, **flows) / MultiStream(…, units=u, total_flow=…, **phase_flows): the model sees a
+            # new empty stream followed by the set_flow / set_total_flow calls the constructor is documented to amount to
+            th, T, P, u = int(t[1]), float(t[3]), float(t[4]), t[5]
+            TOT = None if t[6] == '-' else float(t[6])
+            thermo = THERMOS[th]; n = len(thermo.chemicals); IDs = thermo.chemicals.IDs
+            dim = UNIT_DIM[u]
+            if dim == 'other': return
+            groups = []
+            for g in t[7].split(';'):
+                phsel, ii, xx = g.split(':')
+                idx = sorted({int(x) % n for x in ii.split(',')})
+                xs = [float(x) for x in xx.split(',')]; xs = (xs * len(idx))[:len(idx)]
+                groups.append((int(phsel), idx, xs))
+            if op == 'newu1':
+                ph = t[2][0]
+                idx, xs = groups[0][1], groups[0][2]
+                s = tmo.Stream(None, phase=ph, T=T, P=P, units=u, total_flow=TOT, thermo=thermo,
+                               **{IDs[i]: x for i, x in zip(idx, xs)})
+                kw = {'-': (idx, xs)}
+                w.streams.append(s); sid = len(w.streams) - 1
+                emit(f'new1 {th} {ph} {frac(T)} {frac(P)} {mat([[0.0] * n])}', f'ok {sid}')
+            else:
+                phs = ''.join(sorted(set(t[2])))
+                if len(phs) < 2: return
+                seen, kw = set(), {}
+                for phsel, idx, xs in groups:
+                    p_ = phs[phsel % len(phs)]
+                    if p_ not in seen: seen.add(p_); kw[p_] = (idx, xs)
+                s = tmo.MultiStream(None, phases=tuple(phs), T=T, P=P, units=u, total_flow=TOT, thermo=thermo,
+                                    **{p_: [(IDs[i], x) for i, x in zip(idx, xs)] for p_, (idx, xs) in kw.items()})
+                w.streams.append(s); sid = len(w.streams) - 1
+                emit(f'newm {th} {phs} {frac(T)} {frac(P)} {mat([[0.0] * n for _ in phs])}', f'ok {sid}')
+            V = vtok(s, dim == 'vol')
+            vt = w.vnum(indexer(s, dim)) if dim != 'mol' else '-'
+            for p_, (idx, xs) in kw.items():
+                for i, x in zip(idx, xs):
+                    emit(f'setflow {sid} {u} {p_} {i} {frac(x)} {V}', f'w {vt}')
+            if TOT: emit(f'settotal {sid} {u} {frac(TOT)} {V}', 'ok')
+            # oracle: the stream reads back, in the units of the constructor, what the constructor was given
+            tot_given = sum(sum(xs) for _, xs in kw.values())
+            scale = (TOT / tot_given) if (TOT and tot_given) else 1.0
+            for p_, (idx, xs) in kw.items():
+                key = tuple(IDs[i] for i in idx) if p_ == '-' else (p_, tuple(IDs[i] for i in idx))
+                back = [float(v) for v in np.asarray(s.get_flow(u, key), dtype=float).ravel()]
+                exp = [x * scale for x in xs]
+                if not rows_close([back], [exp]):
+                    fail('ctor-units:readback', f'{type(s).__name__}(units={u!r}, total_flow={TOT}, {p_}: {xs}) reads back {back} '
+                         f'in {u}, expected {exp}')
+            got = float(s.get_total_flow(u)); exp_t = TOT if TOT else tot_given
+            if not close(got, exp_t, RTOL, 1e-9):
+                fail('ctor-units:total', f'{type(s).__name__}(units={u!r}, total_flow={TOT}) has a total of {got!r} {u}, expected {exp_t!r}')
+        elif op == 'copy':
+            # Stream.copy() / Stream.copy(thermo=other): nothing is shared with the original
+            sid = S(t[1]); s = w.streams[sid]
+            if len(w.streams) >= 9: return
+            k = int(t[2]) % len(THERMOS) if t[2] != '-' else THERMOS.index(s.thermo)
+            new = THERMOS[k]
+            if new is not s.thermo:
+                have = set(new.chemicals.CASs)
+                for r in mol_rows(s):
+                    if any(x and cas not in have for x, cas in zip(r, s.chemicals.CASs)): return
+            c = s.copy(thermo=new) if new is not s.thermo else s.copy()
+            cid = reg(c)
+            emit(f'copy {sid} {k} {mat(mol_rows(c))}', f'ok {cid}')
+            conserve(cid, c, 'copy', totals_by_cas(s))
+            if c._imol is s._imol or c._imol.data is s._imol.data or c._imol._data_cache is s._imol._data_cache \
+                    or c._thermal_condition is s._thermal_condition:
+                fail('copy-shares-state', f'stream {sid}: copy() shares the indexer, data, view cache or thermal condition '
+                     f'with the original')
         elif op == 'resetflow':
             # Stream.reset_flow(phase=, units=, total_flow=, **flows) / MultiStream.reset_flow(total_flow=, units=, phases=,
             # **phase_flows): ONE call on the real object; the model sees the calls it is documented to be made of
@@ -981,7 +1112,7 @@ def run_ops(ops):
             sid = S(t[1])
             for sub in (f'rdmol {sid}', f'rdmass {sid}', f'rdvol {sid}', f'rdF {sid} mol', f'rdF {sid} mass', f'rdF {sid} vol',
                         f'rdagg {sid} mol', f'rdagg {sid} mass', f'rdagg {sid} vol'):
-                do(sub)
+                do(sub); tags.add(sub.split(' ')[0])
             s = w.streams[sid]
             Fm, Fv = float(s.F_mass), float(s.F_vol)
             sm = float(sum(sum(r) for r in dense_rows(s.imass.data)))
@@ -991,6 +1122,20 @@ def run_ops(ops):
             if not close(Fv, sv, RTOL, ATOL):
                 fail('F_vol≠sum(vol view)', f'stream {sid}: F_vol = {Fv!r}, ivol.data.sum() = {sv!r} '
                                             f'(phase(s) {phases_of(s)}, last change: {w.last_struct.get(sid)})')
+            # reductions of the views (SparseVector/SparseArray.sum, .max, .any go through DictionaryView.values)
+            for dim, F in (('mass', Fm), ('vol', Fv)):
+                data = indexer(s, dim).data
+                rows = dense_rows(data)
+                red_sum, red_max, red_any = float(data.sum()), float(data.max()), bool(data.any())
+                flat = [x for r in rows for x in r]
+                if not close(red_sum, F, RTOL, ATOL) or not close(red_max, max(flat), RTOL, ATOL) \
+                        or red_any != any(x != 0 for x in flat):
+                    fail(f'view-reduction:{dim}', f'stream {sid}: i{dim}.data.sum()/.max()/.any() = {red_sum!r}/{red_max!r}/'
+                         f'{red_any} but F_{dim} = {F!r}, elementwise max {max(flat)!r}')
+                if not is_multi(s):
+                    agg = float(getattr(s, dim).sum())
+                    if not close(agg, F, RTOL, ATOL):
+                        fail(f'view-reduction:{dim}', f'stream {sid}: stream.{dim}.sum() = {agg!r} but F_{dim} = {F!r}')
         else:
             raise ValueError('unknown op ' + line)
 
@@ -1032,7 +1177,9 @@ def run_ops(ops):
         for line in ops:
             pending[0] = None
             try:
+                n0 = len(model_in)
                 do(line)
+                if len(model_in) > n0: tags.add(line.split(' ')[0])       # tags count operations that really ran
                 check_views_attached(line.split(' ')[0])
             except Stop:
                 raise
@@ -1124,9 +1271,21 @@ def gen_row(rng, n=5):
     return ','.join(str(x) for x in r)
 
 
+def gen_spec(rng, ngroups):
+    return ';'.join(f'{rng.randrange(3)}:{rng.randrange(5)},{rng.randrange(5)}:{rng.choice(XS[1:])},{rng.choice(XS[1:])}'
+                    for _ in range(ngroups))
+
+
 def gen_new(rng, th=None):
     th = rng.choice([0, 0, 0, 1]) if th is None else th
-    if rng.random() < 0.55:
+    r = rng.random()
+    if r < 0.12:      # constructors with units= (all eight units) and optionally total_flow=
+        return (f'newu1 {th} {rng.choice("lgls")} {pickT(rng)} {pickP(rng)} {rng.choice(FLOW_UNITS)} '
+                f'{rng.choice(["-", "-", 5, 20.5])} {gen_spec(rng, 1)}')
+    if r < 0.22:
+        return (f'newum {th} {rng.choice(MULTIPHASES)} {pickT(rng)} {pickP(rng)} {rng.choice(FLOW_UNITS)} '
+                f'{rng.choice(["-", "-", 5, 20.5])} {gen_spec(rng, rng.choice([1, 2, 2]))}')
+    if r < 0.60:
         return f'new1 {th} {rng.choice("lgls")} {pickT(rng)} {pickP(rng)} {gen_row(rng)}'
     phs = rng.choice(MULTIPHASES)
     return f'newm {th} {phs} {pickT(rng)} {pickP(rng)} ' + '|'.join(gen_row(rng) for _ in phs)
@@ -1161,7 +1320,10 @@ def gen_view_units(rng, o, write):
     dim = rng.choice(ALL_DIMS)
     u = rng.choice(FLOW_UNITS) if rng.random() < 0.9 else rng.choice(OTHER_UNITS)
     r = rng.random()
-    if r < 0.1: return f'ctor {dim} {u}'
+    if r < 0.1: return f'ctor {dim} {u}' + (' m' if rng.random() < 0.4 else '')
+    if r < 0.25:
+        return (f'setdataall {o} {dim} {u} {rng.choice(XS)},{rng.choice(XS)},{rng.choice(XS)}' if write
+                else f'getdataall {o} {dim} {u}')
     if write:
         return (f'setdata {o} {dim} {u} {rng.randrange(3)} {rng.randrange(5)} {rng.choice(XS)}' if r < 0.6
                 else f'setprop {o} {dim} {u} {rng.choice(XS[1:])}')
@@ -1263,8 +1425,9 @@ def gen_case(rng, length):
             ops.append(gen_new(rng, th)); n += 1
         elif n < 8:
             # a phase view / proxy / flow proxy of an existing stream, then work on one of the pair and look at both
-            kind = rng.choice(['view', 'view', 'proxy', 'flowproxy'])
-            ops.append(f'view {o} {rng.randrange(3)}' if kind == 'view' else f'{kind} {o}')
+            kind = rng.choice(['view', 'view', 'proxy', 'flowproxy', 'copy', 'copy'])
+            ops.append(f'view {o} {rng.randrange(3)}' if kind == 'view' else
+                       f'copy {o} {rng.choice(["-", "-", 0, 1])}' if kind == 'copy' else f'{kind} {o}')
             new = n; n += 1
             for _ in range(rng.randrange(1, 4)):
                 a, b = (o, new) if rng.random() < 0.5 else (new, o)
@@ -1331,6 +1494,19 @@ def grid():
                 for tot in ('-', '20.5'):
                     out.append(Case(['newm 0 gl 320.0 101325.0 1,2,0,0.5|0,1,3,0', 'obs 0',
                                      f'resetflow 0 {phs} {u} {tot} 0:0,1:3,7;1:2:1.5', 'obs 0'], {'grid': 'reset_flow'}))
+    for u in FLOW_UNITS:
+        for tot in ('-', '20.5'):
+            out.append(Case([f'newu1 0 g 350.0 50000.0 {u} {tot} 0:0,1:3,7', 'obs 0', f'gettotal 0 {u}', f'getflowall 0 {u}'],
+                            {'grid': 'ctor-units'}))
+            out.append(Case([f'newum 0 gl 320.0 101325.0 {u} {tot} 0:0,1:3,7;1:1,2:1.5,20', 'obs 0', f'gettotal 0 {u}',
+                             f'getflowall 0 {u}'], {'grid': 'ctor-units'}))
+        for d in ('mol', 'mass', 'vol'):
+            out.append(Case(['new1 0 l 298.15 101325.0 1,2,0,0.5', f'getdataall 0 {d} {u}', f'setdataall 0 {d} {u} 3,0,7,1.5',
+                             f'getdataall 0 {d} {u}', 'obs 0', f'ctor {d} {u} m'], {'grid': 'view-units'}))
+    for cls in ('new1 0 l 298.15 101325.0 1,2,0,0.5', 'newm 0 gl 320.0 101325.0 1,2,0,0.5|0,1,3,0'):
+        for k in ('-', '1'):
+            out.append(Case([cls, 'obs 0', f'copy 0 {k}', 'obs 1', 'put 1 mol 0 1 5', 'obs 1', 'obs 0', 'setT 1 350.0', 'obs 1',
+                             'obs 0', 'put 0 mass 0 0 9', 'obs 0', 'obs 1'], {'grid': 'copy'}))
     for u in OTHER_UNITS:
         out.append(Case(['new1 0 l 298.15 101325.0 1,2,0,0.5', f'getflow 0 {u} 0 0', f'setflow 0 {u} 0 0 1.5',
                          f'gettotal 0 {u}', f'settotal 0 {u} 2', 'obs 0'], {'grid': 'dimension'}))
